@@ -5,7 +5,7 @@ ONE object for all the messages and streaming steps of the line, so that whateve
 - chaining value, padding object, bit counter, pad flag - meets the next call).  The spec column of the driver is the Lean
 formalisation of RFC 1320 / RFC 1321 / FIPS 180-4 evaluated on "the first L bits of M" (and `ERR` when L > 8|M|, which
 the property requires to be refused).  check_impl is the property's own predicate evaluated on the implementation:
-advertised digest length, refusal of L > 8|M|, a secondary oracle (hashlib; two small RFC/FIPS references for MD4 and
+advertised digest length, refusal of L > 8|M| (one-shot, and on the final piece of a stream whatever was fed before), a secondary oracle (hashlib; two small RFC/FIPS references for MD4 and
 SHA-0) for whole-byte lengths, and for ragged lengths independence from the bits after position L."""
 from props.common import *
 from props import hashcommon as HC
@@ -16,6 +16,7 @@ GEN_ITEMS = ['Hashes']
 RULE = ('op lines `hash <alg> <msg> <bitlen|None>` over the ten algorithms: every byte length 0..2 blocks+2, every L mod 8 around the '
         'spill boundary (block-1-2*word bytes), block and two-block boundaries, 3-5 blocks seeded, L=None, L=0, L>8|M|, trailing data '
         'beyond L; `hashseq` lines with a preset bit counter so that the length field needs more than one 32/64-bit word; '
+        '`hashseq` lines `upd <1..3 blocks> | fin <piece> <L>` with L beyond the piece (8n+1, +7, +8, bits fed+8n-1, bits fed+8n, +1): must be refused; '
         '`hashcalls` lines: ONE object of the library per line hashes several messages in a row (first messages ending without / with a '
         'spill block, on a block boundary, over two blocks; after a refused call, after a dangling update(padding=False), after a streamed '
         'digest, after a preset counter; seeded lives of 4-7 steps), every call compared with the standard\'s digest of that message '
@@ -61,9 +62,44 @@ def check_calls(line, res):
     return None
 
 
+def check_seq(line, res):
+    """streaming lines (`hashseq` / `hashseqc`): a final piece given with more bits than it holds must be refused whatever
+    was fed before (the bit length of a call counts the bits of THAT call's data); a streamed message of whole bytes
+    (whole blocks, then a final piece) has the reference digest of the concatenation"""
+    alg, steps = calls_of(line)
+    outs = res.split(';') if res else []
+    if len(outs) != len(steps): return '%s %s: %d results for %d steps' % (line.split()[0], alg, len(outs), len(steps))
+    B = HC.blocklen(alg)
+    acc = b''                 # the bytes of the message fed so far since the object was (re)initialised; None: not tracked
+    for i, (st, o) in enumerate(zip(steps, outs)):
+        r = o.split(',')[0]
+        if st[0] == 'init': acc = b''
+        elif st[0] == 'upd':
+            p = unhx(st[1]); L = unoi(st[2]) if len(st) > 2 else None
+            L = 8 * len(p) if L is None else L
+            acc = acc + p[:L // 8] if acc is not None and r != 'ERR' and L <= 8 * len(p) and L % (8 * B) == 0 else None
+        elif st[0] == 'fin':
+            p = unhx(st[1]); L = unoi(st[2]) if len(st) > 2 else None
+            bad = lambda why: '%s %s step #%d fin |piece|=%d L=%s after %s: %s' % (
+                line.split()[0], alg, i, len(p), L, 'an unknown history' if acc is None else '%d bytes fed' % len(acc), why)
+            if L is not None and L > 8 * len(p):
+                if r != 'ERR': return bad('a bit length larger than the data supplied in that call must be refused, got %s' % r)
+            elif acc is not None:
+                if r == 'ERR': return bad('unexpected exception')
+                if len(unhx(r)) != HC.outlen(alg): return bad('digest has %d bytes, advertised %d' % (len(unhx(r)), HC.outlen(alg)))
+                if L is None or L % 8 == 0:
+                    exp = HC.reference_digest(alg, acc + (p if L is None else p[:L // 8]))
+                    if exp is not None and exp != unhx(r): return bad('got %s, the reference digest of the streamed message is %s' % (r, exp.hex()))
+            acc = None
+        else:
+            acc = None
+    return None
+
+
 def check_impl(line, res):
     t = line.split(); op, a = t[0], t[1:]
     if op == 'hashcalls': return check_calls(line, res)
+    if op in ('hashseq', 'hashseqc'): return check_seq(line, res)
     if op != 'hash': return None
     alg, m, L = a[0], unhx(a[1]), unoi(a[2])
     L0 = L
@@ -156,10 +192,40 @@ def reuse_cases(alg, rng, thorough):
         yield 'hashseqc %s | %s | %s | upd %s | %s' % (alg, call(m1), call(rnd(rng, 3)), hx(m1), call(m1, 8 * n1 + 1)), 'reuse:object state'
 
 
+def sline(alg, *steps): return 'hashseq %s | %s' % (alg, ' | '.join(steps))
+
+def stream_bitlen_cases(alg, rng, thorough):
+    """streaming with a bit length on the FINAL piece after 1..3 fed blocks: just beyond the piece (8n+1, +7, +8), up to
+    and around `bits fed + 8n` (a length that would be right if it counted from the first bit ever fed), far beyond; the
+    valid lengths 8n, 8n-3 for contrast"""
+    B = HC.blocklen(alg)
+    for k in (1, 2, 3):
+        fed = 8 * B * k
+        for n in ((0, 3, B - 1, B, B + 2) if thorough else (0, 3, B - 1, B)):
+            tail = rnd(rng, n)
+            feeds = ['upd ' + hx(rnd(rng, B * k))] if (k + n) % 2 else ['upd ' + hx(rnd(rng, B)) for _ in range(k)]
+            Ls = [8 * n + 1, 8 * n + 7, 8 * n + 8, fed + 8 * n - 1, fed + 8 * n, fed + 8 * n + 1]
+            if thorough: Ls += [8 * n + 9, fed, fed + 1, fed + 8 * n - 8, 8 * B * (k + 1), 1 << 40]
+            for L in Ls:
+                if L > 8 * n: yield sline(alg, *feeds, 'fin %s %d' % (hx(tail), L)), 'stream:L>8|piece| after fed blocks'
+            for L in (8 * n, 8 * n - 3):
+                if L >= 0 and (L > 0 or n == 0): yield sline(alg, *feeds, 'fin %s %d' % (hx(tail), L)), 'stream:valid L on final piece'
+    # the refusal leaves the object as it was: the same piece with its true length afterwards; after an abandoned stream + init
+    p1, t3 = rnd(rng, B), rnd(rng, 3)
+    yield 'hashseqc %s | upd %s | fin %s 32 | fin %s 24' % (alg, hx(p1), hx(t3), hx(t3)), 'stream:L>8|piece| after fed blocks'
+    yield sline(alg, 'upd ' + hx(p1), 'init', 'upd ' + hx(p1), 'fin %s %d' % (hx(t3), 8 * B + 24)), 'stream:L>8|piece| after fed blocks'
+    yield cline(alg, 'upd ' + hx(p1), 'fin %s 32' % hx(t3), call(t3), call(t3, 32)), 'reuse:after a refused final piece'
+
+
 def cases(tier, rng):
     if tier == 'search':
         while True:
             alg = rng.choice(HC.NAMES); B = HC.blocklen(alg)
+            if rng.randrange(4) == 0:
+                k = rng.randrange(1, 4); n = rng.choice([0, 3, rng.randrange(0, B + 2)])
+                L = 8 * n + rng.choice([1, 7, 8, rng.randrange(1, 8 * B * k + 1), 8 * B * k, 8 * B * k - 1])
+                yield sline(alg, *(['upd ' + hx(rnd(rng, B))] * k), 'fin %s %d' % (hx(rnd(rng, n)), L)), 'search'
+                continue
             if rng.randrange(3) == 0:
                 ms = [rnd(rng, rng.choice([rng.randrange(0, 2 * B + 3), rng.choice(first_lengths(alg))])) for _ in range(rng.randrange(2, 5))]
                 first = rng.choice([call(ms[0]), call(ms[0], 8 * len(ms[0]) + 1), 'upd ' + hx(ms[0]), 'fin ' + hx(ms[0])])
@@ -216,6 +282,7 @@ def cases(tier, rng):
                 if thorough or n in (1, B):
                     yield 'hashseq %s | preset %d | upd %s | fin %s' % (alg, p, hx(rnd(rng, B)), hx(rnd(rng, n))), 'counter:multi-word'
         yield from reuse_cases(alg, rng, thorough)
+        yield from stream_bitlen_cases(alg, rng, thorough)
 
 
 def shrink_calls(line):
@@ -224,7 +291,7 @@ def shrink_calls(line):
     for i in range(len(steps) - 1):
         if len(steps) > 2: yield cline(alg, *[' '.join(s) for j, s in enumerate(steps) if j != i])
     for i, st in enumerate(steps):
-        if st[0] == 'preset': continue
+        if st[0] in ('preset', 'init'): continue
         m = unhx(st[1])
         for k in (len(m) // 2, len(m) - 1):
             if 0 <= k < len(m):
@@ -232,10 +299,24 @@ def shrink_calls(line):
                 yield cline(alg, *[' '.join(st2 if j == i else s) for j, s in enumerate(steps)])
 
 
+def shrink_seq(line):
+    op = line.split()[0]
+    alg, steps = calls_of(line)
+    mk = lambda sts: '%s %s | %s' % (op, alg, ' | '.join(' '.join(x) for x in sts))
+    for i in range(len(steps) - 1):
+        if len(steps) > 2: yield mk(steps[:i] + steps[i + 1:])
+    for i, st in enumerate(steps):
+        if st[0] == 'upd' and len(st) == 2 and len(unhx(st[1])) > HC.blocklen(alg):
+            yield mk(steps[:i] + [['upd', hx(unhx(st[1])[:HC.blocklen(alg)])]] + steps[i + 1:])
+
+
 def shrink(line):
     t = line.split()
     if t[0] == 'hashcalls':
         yield from shrink_calls(line)
+        return
+    if t[0] in ('hashseq', 'hashseqc'):
+        yield from shrink_seq(line)
         return
     if t[0] != 'hash': return
     m = unhx(t[2]); L = unoi(t[3])
@@ -252,7 +333,7 @@ def nontrivial(line, impl): return impl != 'ERR' and not impl.startswith('ERR')
 LEVEL_TEXT = ('Lean 4 theorem hash_refines: for all ten algorithms, every byte string M and every bit length 0 < L <= 8|M| (or omitted) the one-shot call of '
               'Model.Md/Model.Sha (hand-written mirrors of crysp/md.py, crysp/sha.py over the Bits/Padding models; all constants, tables and bit-expression '
               'lambdas regenerated from the source on every run) returns the digest of the Lean formalisation of RFC 1320 / RFC 1321 / FIPS 180-4 on the first L '
-              'bits; plus digest_length, bitlen_too_large, final_update_refines (length fields of any size). The model is tied to the code by the translator '
+              'bits; plus digest_length, bitlen_too_large, streamed_bitlen_too_large (update(M,bitlen=L,padding) with L > 8|M| is refused from ANY object state and leaves it untouched), final_update_refines (length fields of any size). The model is tied to the code by the translator '
               'and a boundary-directed correspondence stream that also compares the real code with the executable specification and with hashlib.')
 LEVEL_NOTE = ('Trusted: Lean kernel; axioms ⊆ {propext, Classical.choice, Quot.sound}; lean/Spec/{Bytes,MerkleDamgard,Md4,Md5,Sha1,Sha2,Sha2Consts}.lean as renderings of '
               'the standards (K/IV tables recomputed by rule, SHA-512/t IVs by the FIPS 180-4 5.3.6 generation function in the kernel); extract.py/runcheck.py/props/C01.py; '
